@@ -40,32 +40,6 @@ def make_payload(rng, idx, tier):
     return program_payload(P, **meta)
 
 
-def predicates(text):
-    """Mechanism keys of known detector/reader limits, from the rendering itself."""
-    import re
-
-    keys = []
-    for l in text.split("\n"):
-        if len(l) > 6 and l[:5].strip() in ("",) or (len(l) > 6 and l[:5].strip().isdigit()):
-            body = l[6:]
-            if l[5] in " 0" and re.match(r"^\s*\w+\s*:\s*$", body):
-                keys.append("initial-line-ends-in-name-colon")
-    return keys
-
-
-def name_split(P, text, info):
-    """construct name (or its ':') not wholly on the initial line"""
-    for i, st in enumerate(P.stmts):
-        if st.cname:
-            first = text.split("\n")[info["stmt_first"][i] - 1]
-            body = first[6:]
-            import re
-
-            if not re.match(r"^\s*%s\s*:\s*\S" % re.escape(st.cname), body, re.I):
-                return True
-    return False
-
-
 def one(P, std, payload):
     if payload["mode"] == "detect":
         text, info = layout.render(P, random.Random(payload["layout_seed"]),
@@ -100,26 +74,18 @@ def one(P, std, payload):
         tree = fp.create(std)(rd)
     except fp.FortranSyntaxError as e:
         key = "fixed-rejected"
-        pk = predicates(text)
-        if pk:
-            key = pk[0]
-        elif name_split(P, text, info):
-            key = "construct-name-split-across-fixed-continuation"
-        elif o.get("p_zero_col6") and any(len(l) > 5 and l[5] == "0" for l in text.split("\n")):
+        if o.get("p_zero_col6") and any(len(l) > 5 and l[5] == "0" for l in text.split("\n")):
             key = "zero-in-column-6-taken-as-continuation"
         return viol(key, "fixed-form rendering rejected: %s" % str(e)[:160].replace("\n", " | ")), text
     except SystemExit:
-        pk = predicates(text)
-        return viol(pk[0] if pk else "fixed-systemexit", "reader called sys.exit on a fixed-form rendering"), text
+        return viol("fixed-systemexit", "reader called sys.exit on a fixed-form rendering"), text
     finally:
         sm.reader = None
         fp.SYMBOL_TABLES.clear()
     a, b = shape(ref.tree, FOLD), shape(tree, FOLD)
     if a != b:
         key = "fixed-tree-differs"
-        if name_split(P, text, info):
-            key = "construct-name-split-across-fixed-continuation"
-        elif o.get("p_zero_col6") and any(len(l) > 5 and l[5] == "0" for l in text.split("\n")):
+        if o.get("p_zero_col6") and any(len(l) > 5 and l[5] == "0" for l in text.split("\n")):
             key = "zero-in-column-6-taken-as-continuation"
         return viol(key, first_diff(a, b)), text
     return None, text
